@@ -1295,9 +1295,19 @@ def r11_views_end_to_end(rep, src, tier):
         body = ''.join(l_ for l_ in rest.splitlines(True) if not l_.startswith('#'))
         parts = body.split(sep) if sep else body.split()
         return [_re.sub(r'\\s+', ' ', x_.strip()) if sep else x_ for x_ in parts if x_.strip()]
-    EDITS = [("lst.append('new')", lambda v: v + ['new']), ("lst.remove(vals[0])", lambda v: v[1:]), ("lst.replace(vals[-1], 'last')", lambda v: v[:-1] + ['last']),
-             ("refs = list(lst.iter_value_references()); refs[0].value = 'first'", lambda v: ['first'] + v[1:]),
-             ("refs = list(lst.iter_value_references()); refs[-1].remove()", lambda v: v[:-1])]
+    # (`vals` is the list as it was read when the view was opened: remove / replace name a value of THAT list; the references are taken
+    # from the list as it is at that step)
+    def without(v, x):
+        k = v.index(x)
+        return v[:k] + v[k + 1:]
+
+    def replaced(v, x, y):
+        k = v.index(x)
+        return v[:k] + [y] + v[k + 1:]
+    EDITS = [("lst.append('new')", lambda v, v0: v + ['new']), ("lst.remove(vals[0])", lambda v, v0: without(v, v0[0])),
+             ("lst.replace(vals[-1], 'last')", lambda v, v0: replaced(v, v0[-1], 'last')),
+             ("refs = list(lst.iter_value_references()); refs[0].value = 'first'", lambda v, v0: ['first'] + v[1:]),
+             ("refs = list(lst.iter_value_references()); refs[-1].remove()", lambda v, v0: v[:-1])]
     n, bad = 0, None
     for kind, sep, rests in FIELDS:
         for rest in rests:
@@ -1307,8 +1317,8 @@ def r11_views_end_to_end(rep, src, tier):
             if tier == 'thorough':
                 steps = [[e_] for e_ in EDITS] + [list(p_) for p_ in itertools.permutations(EDITS, 2)]
             else:
-                # (every edit on two or three layouts of each kind, a two-step history on the first layout)
-                steps = [[EDITS[k_ % 5]], [EDITS[(k_ + 2) % 5]]] + ([[EDITS[0], EDITS[1]], [EDITS[3], EDITS[2]]] if k_ == 0 else [])
+                # (every edit on at least one layout of each kind, a two-step history on the first layout; thorough: everything)
+                steps = [[EDITS[(k_ + (0 if sep else 2)) % 5]]] + ([[EDITS[0], EDITS[1]]] if k_ == 0 else [[EDITS[(k_ + 3) % 5]]] if k_ == 1 else [])
             for hist in [[]] + steps:
                 n += 1
                 vals_model = list(want_vals)
@@ -1318,8 +1328,12 @@ def r11_views_end_to_end(rep, src, tier):
                         continue
                     if len(vals_model) == 1 and ('remove' in src_line):
                         continue          # (a field must keep a value)
+                    try:
+                        nxt_ = fn_(vals_model, want_vals)
+                    except ValueError:
+                        continue          # (the value named by `vals` is no longer in the list)
                     applicable.append(src_line)
-                    vals_model = fn_(vals_model)
+                    vals_model = nxt_
                 label = 'List:%r read as a %s list%s' % (rest, 'comma' if sep else 'whitespace', (', then ' + '; '.join(applicable)) if applicable else ', closed unchanged')
                 try:
                     vals, after = run(text, kind, applicable)
